@@ -777,6 +777,9 @@ func (w *walker) stmt(s ast.Stmt) {
 	case *ast.IfStmt:
 		w.stmt(st.Init)
 		w.expr(st.Cond)
+		if u, ok := ast.Unparen(st.Cond).(*ast.UnaryExpr); ok && u.Op == token.NOT {
+			w.emit("neg", "") // polarity of the test: `if !c {` (the shape facts compare it)
+		}
 		w.scoped(st.Body.List)
 		if st.Else != nil {
 			if b, ok := st.Else.(*ast.BlockStmt); ok {
